@@ -166,11 +166,38 @@ pub fn case(ctx: &Ctx, kind: &str, params: &Value, counting: bool) -> Result<(),
 				None => Ok(()),
 			}
 		}
+		"chain" => chain_case(ctx, &dna_param(params), counting),
 		_ => {
 			let (m, comp, hash) = dna_case(&dna_param(params), &cfg(ctx));
 			check(ctx, &m, comp, hash, None, counting)
 		}
 	}
+}
+
+/// A generated sequence of lossless format hops (.slp / .slpp with any compression / Arrow) over one
+/// game: after every hop it must still serialise to the original file (see chain.rs).
+fn chain_case(ctx: &Ctx, dna: &[u8], counting: bool) -> Result<(), Fail> {
+	let mut d = Dna::new(dna);
+	let ops = super::chain::gen_ops(&mut d, false, 6);
+	let mut c = cfg(ctx);
+	c.max_frames = c.max_frames.min(30);
+	let m = super::gen_model_mixed(&mut d, &c, true);
+	let bytes = m.encode();
+	if counting {
+		ctx.eval();
+		ctx.class("chain");
+		ctx.class(&format!("chain_len={}", ops.len()));
+		for o in &ops {
+			ctx.class(&format!("hop:{}", o.name()));
+		}
+		if m.frames.len() >= 1 {
+			let mut h = bytes.clone();
+			h.extend(ops.iter().flat_map(|o| o.name().into_bytes()));
+			ctx.nontrivial(rt::hash_bytes(&h));
+		}
+		ctx.sample_k("chain", 4, || json!({"ops": ops.iter().map(|o| o.name()).collect::<Vec<_>>(), "model": m.summary()}));
+	}
+	super::chain::run_chain(&bytes, &ops, &m.summary())
 }
 
 pub fn file_case(bytes: &[u8]) -> Result<(), Fail> {
@@ -229,6 +256,9 @@ pub fn run(ctx: &Ctx) -> usize {
 		{
 			violations += 1;
 		}
+	}
+	if violations == 0 && run_dna(ctx, "chain", ctx.n(4_000, 150_000), dna_max(ctx), |dna, counting| chain_case(ctx, dna, counting)).is_some() {
+		violations += 1;
 	}
 	// generator-gap guard: every forced class x compression cell must have been exercised
 	if violations == 0 {
